@@ -871,6 +871,10 @@ func (rw *rewriter) rootPkgVar(e ast.Expr) bool {
 		}
 	case *ast.StarExpr:
 		return rw.rootPkgVar(x.X)
+	case *ast.UnaryExpr:
+		if x.Op == token.AND { // &pkgVar handed out: the callee works on the variable itself
+			return rw.rootPkgVar(x.X)
+		}
 	}
 	return false
 }
@@ -920,6 +924,10 @@ func (rw *rewriter) opaqueUse(e ast.Expr) bool {
 
 // opaqueValue wraps the already rewritten value expression r (originally orig).
 func (rw *rewriter) opaqueValue(orig, r ast.Expr) ast.Expr {
+	if id, ok := orig.(*ast.Ident); ok {
+		// the object is named after the variable, however it is handed out (x, &x)
+		orig = &ast.Ident{NamePos: id.NamePos, Name: strings.TrimLeft(id.Name, "&(")}
+	}
 	rw.rep.Hooks++
 	rw.rep.ByCategory["opaque"]++
 	return rw.call("OV", r, rw.site(orig))
